@@ -996,6 +996,23 @@ class BaselineOracle:
             c = np.asarray(pre.coords[dim], dtype=float)
             rg = None if regs is None else [(to_float(a), to_float(b)) for a, b in regs]
             rb = lambda x: dnp.remove_background(x, dim, deg, rg)
+            # "… the least-squares polynomial of the requested degree fitted ON THE REQUESTED REGIONS": per trace, against
+            # numpy.polyfit on exactly the points inside the regions (real and imaginary parts separately)
+            mask = np.ones(len(c), dtype=bool) if rg is None else np.zeros(len(c), dtype=bool)
+            for lo_, hi_ in (rg or []):
+                mask |= (c >= lo_) & (c <= hi_)
+            if mask.sum() >= deg + 1:
+                src = np.moveaxis(np.asarray(pre.values), k, 0).reshape(len(c), -1)
+                got = np.moveaxis(np.asarray(res.values), k, 0).reshape(len(c), -1)
+                for j in range(src.shape[1]):
+                    t = src[:, j]
+                    if np.iscomplexobj(t):
+                        want = t - (np.polyval(np.polyfit(c[mask], t.real[mask], deg), c) + 1j * np.polyval(np.polyfit(c[mask], t.imag[mask], deg), c))
+                    else:
+                        want = t - np.polyval(np.polyfit(c[mask], t[mask], deg), c)
+                    sc_ = max(1.0, float(np.max(np.abs(t))))
+                    if got.shape != src.shape or not np.allclose(got[:, j], want, rtol=1e-7, atol=1e-7 * sc_):
+                        out.append("C14:background-not-the-fit-on-the-regions:%s:deg%d" % (sig, deg)); break
             # annihilates polynomials of degree <= deg
             for dg in range(deg + 1):
                 poly = pre.copy()
